@@ -549,11 +549,12 @@ M('unique_add_before_test', 'C09', IT,
             seen.add(k)
             yield i
     return""")
-M('ranges_ge_gt', 'C09', IT,
-  """        if i + chunk_size >= input_stop:
-            return""",
-  """        if i + chunk_size > input_stop:
-            return""")
+# (a ">= -> >" mutant of chunk_ranges' stop test only appends a redundant, still clause-conforming range: not a violation)
+M('ranges_step', 'C09', IT,
+  """    for i in range(input_offset, input_stop, chunk_size - overlap_size):
+        yield (i, min(i + chunk_size, input_stop))""",
+  """    for i in range(input_offset, input_stop, chunk_size - overlap_size):
+        yield (i, min(i + chunk_size + (overlap_size == 3), input_stop))""")
 M('ranges_align_initial', 'C09', IT,
   """        if initial_chunk_len != overlap_size:""",
   """        if initial_chunk_len > overlap_size + (chunk_size == 7):""")
